@@ -12,7 +12,7 @@ def sh(cmd, **kw):
     return subprocess.run(cmd, stdout=subprocess.PIPE, stderr=subprocess.STDOUT, text=True, **kw)
 
 def build(tree, dest):
-    return sh([PY, '/tmp/seedtools/build.py', tree, dest])
+    return sh([PY, os.path.join(VERIF, 'tools', 'seedbuild.py'), tree, dest])
 
 def tests(tree, dest):
     env = dict(os.environ, PYTHONPATH=dest, OPENBLAS_NUM_THREADS='1')
